@@ -279,6 +279,7 @@ static void dump_image(const char *path) {
     FILE *f = fopen(path, "wb");
     if (!f) { out("err dump fopen"); return; }
     if (dev_is_file) {
+        if (dev && dev->fd) fflush(dev->fd);      /* the library's stdio buffer may hold the last writes */
         FILE *g = fopen(devname, "rb");
         if (g) { uint8_t b[4096]; size_t n; while ((n = fread(b, 1, sizeof b, g)) > 0) fwrite(b, 1, n, f); fclose(g); }
     } else fwrite(mem, 1, mem_size, f);
@@ -347,6 +348,7 @@ int main(int argc, char **argv) {
         alarm(60);
 
         if (!strcmp(c, "verbose")) { verbose = atoi(a[1]); out("ok"); }
+        else if (!strcmp(c, "spectree") || !strcmp(c, "specintl")) { out("ok"); }
         else if (!strcmp(c, "clock")) { pinned_clock = (time_t)atoll(a[1]); out("ok"); }
         else if (!strcmp(c, "heapfill")) { heapfill = atoi(a[1]); out("ok"); }
         else if (!strcmp(c, "stackfill")) { stackfill = atoi(a[1]); out("ok"); }
